@@ -65,3 +65,51 @@ Theorem largest_mono_edges nodes es es' :
 Proof.
   intros Hwf Hi. split; [apply largest_mono; assumption|]. intros v Hv. apply comp_mono; assumption.
 Qed.
+
+(* ---------- the value depends only on the undirected edge SET and the vertex SET ---------- *)
+Lemma conn_mono_adj es es' v w :
+  (forall u x, adj es u x -> adj es' u x) -> conn es v w -> conn es' v w.
+Proof.
+  intros Hi H. induction H as [v|u w x _ IH Ha]; [constructor|].
+  eapply conn_step; [exact IH|apply Hi; exact Ha].
+Qed.
+
+Lemma comp_mono_adj nodes es es' v :
+  wf nodes es -> wf nodes es' -> (forall u x, adj es u x -> adj es' u x) -> In v nodes ->
+  incl (comp nodes es v) (comp nodes es' v).
+Proof.
+  intros Hwf Hwf' Hi Hv w Hw.
+  apply (comp_spec nodes es' v w Hwf' Hv).
+  apply (conn_mono_adj es es' v w Hi).
+  apply (comp_spec nodes es v w Hwf Hv). exact Hw.
+Qed.
+
+Lemma largest_mono_adj nodes es es' :
+  wf nodes es -> wf nodes es' -> (forall u x, adj es u x -> adj es' u x) ->
+  largest nodes es <= largest nodes es'.
+Proof.
+  intros Hwf Hwf' Hi. unfold largest. apply largest_le. intros v Hv.
+  eapply Nat.le_trans; [|apply (largest_ge nodes es' nodes v Hv)].
+  apply NoDup_incl_length; [apply comp_NoDup|apply comp_mono_adj; assumption].
+Qed.
+
+(* same adjacency relation (edge order, orientation and multiplicity are irrelevant) => same value *)
+Theorem largest_adj_ext nodes es es' :
+  wf nodes es -> wf nodes es' -> (forall u x, adj es u x <-> adj es' u x) ->
+  largest nodes es = largest nodes es'.
+Proof.
+  intros Hwf Hwf' H. apply Nat.le_antisymm; apply largest_mono_adj; try assumption; intros u x; apply H.
+Qed.
+
+Lemma fold_max_perm (f : nat -> nat) l l' : Permutation l l' ->
+  fold_right (fun v m => Nat.max (f v) m) 0 l = fold_right (fun v m => Nat.max (f v) m) 0 l'.
+Proof.
+  intros HP. induction HP as [|x l l' _ IH|x y l|l l' l'' _ IH1 _ IH2]; cbn; [reflexivity|rewrite IH; reflexivity|lia|congruence].
+Qed.
+
+(* the order in which G.nodes() lists the vertices is irrelevant *)
+Theorem largest_nodes_perm nodes nodes' es : Permutation nodes nodes' -> largest nodes es = largest nodes' es.
+Proof.
+  intros HP. unfold largest, comp. rewrite (Permutation_length HP).
+  apply (fold_max_perm (fun v => length (iter_expand es (length nodes') [v]))). exact HP.
+Qed.
